@@ -23,6 +23,7 @@ import LA.Drive.ClientWrite
 import LA.Drive.Xtr
 import LA.Drive.ReadData
 import LA.Drive.Flt
+import LA.Drive.Tree
 open LA
 
 def engines : List (String × Engine) := [
@@ -51,7 +52,8 @@ def engines : List (String × Engine) := [
   ("xtrtar", LA.Xtr.engine),
   ("pathclean", LA.Xtr.enginePath),
   ("rdd", LA.RD.engine),
-  ("flt", LA.Flt.engine)
+  ("flt", LA.Flt.engine),
+  ("tree", LA.Tree.engine)
 ]
 
 partial def loop (e : Engine) (h : IO.FS.Stream) (out : IO.FS.Stream) (s : e.σ) : IO Unit := do
